@@ -64,16 +64,21 @@ impl Debt {
     #[inline]
     pub(crate) fn pay<T: RefCnt>(&self, ptr: *const T::Base) -> bool {
         self.0
-            // If we don't change anything because there's something else, Relaxed is fine.
-            //
             // The Release works as kind of Mutex. We make sure nothing from the debt-protected
             // sections leaks below this point.
+            //
+            // That Release needs someone to Acquire it. If a reader returns its debt itself, the
+            // only one who ever looks is a writer whose attempt to pay that slot then *fails*
+            // (it finds NONE in there), so the failure must not be Relaxed ‒ otherwise the
+            // reader's accesses to the value don't happen before its destruction by whoever
+            // drops the last reference later. SeqCst, so it also takes part in the Dekker pair of
+            // the writer's swap on the pointer vs. the reader's swap on the slot.
             //
             // Note that if it got paid already, it is inside the reference count. We don't
             // necessarily observe that increment, but whoever destroys the pointer *must* see the
             // up to date value, with all increments already counted in (the Arc takes care of that
             // part).
-            .compare_exchange(ptr as usize, Self::NONE, Release, Relaxed)
+            .compare_exchange(ptr as usize, Self::NONE, SeqCst, SeqCst)
             .is_ok()
     }
 
